@@ -35,6 +35,8 @@ type Obligation struct {
 	PathID  int
 	Result  *SolverResult
 	Trivial bool
+	relAlt  func() *Obligation // weaker alternative tried when the obligation is not discharged
+	relAltFull bool
 }
 
 // EntrySnapshot records how the symbolic entry state of the function under
@@ -193,6 +195,9 @@ type Exec struct {
 	initMode      bool
 	noInits       bool
 	initRefs      int
+	relMode       bool
+	relQuant      bool
+	includeRootInit bool
 }
 
 type ExecMode struct {
@@ -730,7 +735,7 @@ func (ex *Exec) execBlock(f *frame, st *State, b *ssa.BasicBlock, from *ssa.Basi
 	}
 	if li := f.loops[b]; li != nil {
 		ls := f.loopSpec(li)
-		if ls != nil && ls.Unroll || f.ex.prog.forceUnroll[f.key] || ex.initMode {
+		if ls != nil && ls.Unroll || f.ex.prog.forceUnroll[f.key] || ex.initMode || (ex.relMode && f.concreteRange(st, li)) {
 			st.iters[b]++
 			if st.iters[b] > 4 && !ex.initMode && !ex.feasible(st) {
 				// the unrolled path has become infeasible: prune it
